@@ -545,7 +545,7 @@ func c10InRange(k string, z *big.Int) bool {
 // C10 is the harness entry point
 func C10(ctx *core.Ctx) error {
 	ctx.Imports = "Val.Model Conv.Model Conv.Spec Check.C10Check"
-	ctx.ShardMax = 90000 // more, smaller shards: they are classified in parallel
+	ctx.ShardMax = 150000 // more, smaller shards: they are classified in parallel
 	ctx.Rule = "row = one Go source value converted by the real val.Conv to each of the 22 modelled targets (8 integer widths, decimal64, boolean, string and their list forms); sources: every integer kind (10 kinds, plain and defined types) at the boundary set {type min/max, +-2 around 0, 2^7, 2^8, 2^15, 2^16, 2^31, 2^32, 2^53, 2^63, 2^64 and +-1, +-2} cut to the kind's range plus random values, float64/float32 incl. -0, +-0.5 around each boundary, NaN, +-Inf, the decimal/hex/underscore/sign/space spellings of every boundary integer, booleans, nil, a struct; slices: every typed slice, []interface{} mixes, empty slices; oneof = val.ConvOneOf over random format lists. Observation = error | nil | Value() read back by reflection (exact) + String(). non-trivial = source is not nil/struct; distinct by SHA-256 of the term"
 	r := gen.New(ctx.Seed)
 	extra := ctx.Scale(12, 300)
